@@ -325,3 +325,49 @@ func TestReplay_C02_AsyncLeaderTermNotDurable(t *testing.T) {
 	})
 	report(t, res)
 }
+
+// C04/C01 regression (fixed by "fix: do not request votes for a log that is
+// not durable yet"): node 2 (AsyncStorageWrites, stalled append thread) holds
+// a committed entry x only in its unstable log, campaigns and advertises x in
+// its MsgVote before anything is durable; node 1 grants. Node 2 crashes, loses
+// x and the new term, restarts, campaigns for the same term again - now
+// without x - and the grant meant for its earlier self makes it leader of a
+// log that lacks a committed entry.
+func asyncVoteForUnstableLog(t *testing.T, owned []string) {
+	w := world(3, []uint64{1, 2, 3}, func(id uint64, o *sim.NodeOpts) { o.Async = id == 2 })
+	res := sim.RunScript(w, owned, nil, func(s *sim.Sim) {
+		n1, n2, n3 := s.Nodes[1], s.Nodes[2], s.Nodes[3]
+		elect(s, 3)
+		n2.SlowAppend = true
+		s.Propose(n3, 8)
+		s.Stabilize(6) // x committed on {1,3}; node 2 holds it unstable, its write is queued
+		s.Isolate(n3)
+		s.TickUntilCampaign(n2)
+		s.Service(n2) // MsgVote(last = x) may leave although nothing is durable
+		deliverAllTo(s, 1)
+		s.Service(n1) // node 1 grants durably; the grant is in flight
+		s.Crash(n2, false, false)
+		_, hi := s.RestartRange(n2)
+		n2.SlowAppend = false
+		s.Restart(n2, hi)
+		s.TickUntilCampaign(n2) // same term again, log without x
+		s.Service(n2)
+		deliverAllTo(s, 2)
+		s.Service(n2)
+		s.Stabilize(6)
+		s.Propose(n2, 9)
+		s.Heal()
+		s.Stabilize(10)
+	})
+	report(t, res)
+}
+
+func TestReplay_C04_AsyncVoteForUnstableLog(t *testing.T) {
+	asyncVoteForUnstableLog(t, []string{"C04"})
+}
+func TestReplay_C01_AsyncVoteForUnstableLog(t *testing.T) {
+	asyncVoteForUnstableLog(t, []string{"C01", "C06"})
+}
+func TestReplay_C05_AsyncVoteForUnstableLog(t *testing.T) {
+	asyncVoteForUnstableLog(t, []string{"C04", "C01", "C05"})
+}
